@@ -1148,6 +1148,11 @@ class Engine:
                 self.ghost_assign(path, ex, st, fr.old)
             for c in fr.contract.asserts.get('before:' + site, []):
                 v = self.eval_clause(c, st, fr.old)
+                if c.label.startswith('A-'):
+                    # a stated assumption at this call site (listed in the evidence, never discharged)
+                    if not is_unk(v):
+                        st.assume(self.dom.truth(v, st))
+                    continue
                 self.oblige(st, v, 'assert', c.label, c.tags, node.lineno, site='before ' + site)
         cst = st.copy()
         cst.env = dict(env)
